@@ -1,7 +1,7 @@
 """C07 Activeness and imputation follow one contract on every path.\n\nCorrespondence: see harness/procpass.py - active => the choice / DV node exists in the instance; inactive => canonical\nvalue; a variable not flagged conditionally active is active in every enumerated design; activeness is the same from\nthe enumeration, from decoding with and without materialising the instance, and from decoding a vector that is corrected\nto the design."""
 from .. import proc, procpass
 
-KINDS = {'active-but-absent', 'inactive-not-canonical', 'unconditional-variable-inactive', 'activeness-paths-differ', 'create-flag-activeness', 'enum-activeness-differs'}
+KINDS = {'active-but-absent', 'inactive-not-canonical', 'unconditional-variable-inactive', 'activeness-paths-differ', 'create-flag-activeness', 'enum-activeness-differs', 'lean-decode-activeness'}
 RULE = ('seeded problems from streams (tame, tree, cons, dv, conn, conn-dv) x both selection encoders; per problem every vector of the declared design space when <= 200 vectors (continuous variables at 3 sample points), else 200 samples; a case is one (problem, encoder); non-trivial = >= 2 architectures or a connection choice or DV nodes; distinct by content hash')
 BUDGET = {'quick': 110, 'thorough': 1500}
 JOBS = {'quick': 4, 'thorough': 16}
